@@ -305,7 +305,8 @@ def gen_case(rng, tier):
             h2 = None
             if with_overlap and rng.chance(1, 4):
                 # a second host of ANOTHER cluster (or of none) for an overlapping request with the same key
-                others = [x for x in hosts + ["nowhere"] if _cluster_of(cfg, x) != _cluster_of(cfg, h) or _cluster_of(cfg, x) is None]
+                others = [x for x in hosts + ["nowhere"]
+                          if x != h and (_cluster_of(cfg, x) != _cluster_of(cfg, h) or _cluster_of(cfg, x) is None)]
                 h2 = rng.choice(others) if others else None
             if h2 is not None:
                 if rng.chance(1, 2):
